@@ -38,6 +38,7 @@ import (
 	"github.com/foxcpp/maddy/framework/log"
 	"github.com/foxcpp/maddy/framework/module"
 	"github.com/foxcpp/maddy/internal/target"
+	"golang.org/x/net/idna"
 )
 
 type Check struct {
@@ -158,6 +159,12 @@ func (d *dkimCheckState) CheckBody(ctx context.Context, header textproto.Header,
 
 	verifications, err := dkim.VerifyWithOptions(io.MultiReader(&b, bodyRdr), &dkim.VerifyOptions{
 		LookupTXT: func(domain string) ([]string, error) {
+			// INTERNATIONALIZATION: d= of a signature on an internationalized
+			// message may be in the U-label form (RFC 8616 Section 5), the
+			// key record is published under the A-label form.
+			if ascii, err := idna.ToASCII(domain); err == nil {
+				domain = ascii
+			}
 			return d.c.resolver.LookupTXT(ctx, domain)
 		},
 	})
